@@ -108,6 +108,12 @@ def mode_order_rules(ctx):
         fn = F.fn(pat)
         ctx.analysed_fn(fn)
         tag = "Vec" if "Vec" in pat else "slice"
+        from .common import delegates_to
+        sib = [F.fn(x) for x in (r"ScannerImpl as std::convert::TryFrom<std::vec::Vec<scanner_mode::ScannerMode>>>::try_from$", r"ScannerImpl as std::convert::TryFrom<&\[scanner_mode::ScannerMode\]>>::try_from$") if x != pat][0]
+        dg = delegates_to(F, fn, sib)
+        if dg is not None:
+            ctx.ob("C06.i", "modes-compiled-in-list-order:%s" % tag, True, "delegates: " + dg, fn.loc())
+            continue
         bad = [M.short_name(M.call_name(t)) for bb, t in fn.calls(ORDER_BREAKERS)]
         ctx.ob("C06.i", "modes-compiled-in-list-order:%s" % tag, not bad, "reordering/filtering calls: %s" % bad, fn.loc())
         ex, paths = run_fn(fn, F, Model(), max_paths=5000, desugar=r".|collect")
